@@ -9,9 +9,9 @@ C16 driver.  A case is one operation history:
   C16 mt <threads> <iters> <len>      (thorough tier search aid, harness h-buffer/c16)
 
 Each op is `name:arg:arg…`.  The answer has one group per step,
-`<outcome>/<pool.used>/<owners dropped in this step>/<slots whose visible content changed>`,
+`<outcome>/<used() of pool 0.1.2>/<owners dropped in this step>/<slots whose visible content changed>`,
 and ends with the drop count of every owner.  After every step the specification check
-`specOk` (released ⇔ unreferenced, exactly once; pool = Σ capacity of live claimed regions)
+`specOk` (released ⇔ unreferenced, exactly once; every pool = Σ capacity of the live regions claimed in it)
 is evaluated on the model state; a failure is reported as `MODEL-SPEC-MISMATCH`.
 -/
 namespace ArrowModel.C16
@@ -33,7 +33,11 @@ def parseOp (s : String) : Option Op :=
   | some "wr", [some i, some pos, some val] => some (.write i pos val)
   | some "ex", [some i, some n, some val] => some (.extend i n val)
   | some "tr", [some i, some len] => some (.truncate i len)
-  | some "cm", [some i] => some (.claim i)
+  -- `cm:<slot>` (pool 0), `cm:<slot>:<pool>`, `cm:<slot>:<pool>:<how>` (`how` = which API of the
+  -- handle the harness calls: Buffer / BooleanBuffer / Array `claim`; same region-level effect)
+  | some "cm", [some i] => some (.claim i 0)
+  | some "cm", [some i, some p] => some (.claim i p)
+  | some "cm", [some i, some p, some _] => some (.claim i p)
   | some "wp", [some i, some d, some off, some len] => some (.wrap i d off len)
   | some "um", [some i, some delta] => some (.unaryMut i delta)
   | some "ba", _ =>
@@ -90,7 +94,7 @@ def runHist (s : State) (ops : List Op) : List String × State × Option Nat :=
     | [] => (acc.reverse, s, bad)
     | op :: rest =>
       let (s', out) := step s op
-      let line := s!"{showOut out}/{s'.pool}/{showList toString (newlyDropped s s')}/{showList id (changed (slotViews s) (slotViews s'))}"
+      let line := s!"{showOut out}/{".".intercalate ((List.range numPools).map (fun p => toString (s'.pool p)))}/{showList toString (newlyDropped s s')}/{showList id (changed (slotViews s) (slotViews s'))}"
       go s' (k + 1) (line :: acc) (if bad.isNone && !specOk s' then some k else bad) rest
   go s 0 [] none ops
 
